@@ -248,6 +248,11 @@ def run_session(sess: Dict[str, Any], world_dir: str, emit: Callable[[Dict[str, 
                 if "/hta/" in fr.filename:
                     where = f"{fr.filename.split('/hta/')[-1]}:{fr.name}"
                     break
+            if not where and not isinstance(exc, OSError):
+                # raised by the harness's own code, not by the system under test
+                emit({"ev": "harness_error", "i": i, "where": "op-code", "exc": type(exc).__name__,
+                      "msg": str(exc)[:300], "tb": traceback.format_exc()[-1500:]})
+                return 3
             emit({"ev": "op_end", "i": i, "op": o["op"], "ok": False, "exc": type(exc).__name__,
                   "msg": str(exc)[:200], "where": where})
         if o.get("kill_after"):
